@@ -128,6 +128,28 @@ func (m *ParamLab) GenFaults(w *engine.World, r *engine.Rand) []engine.Fault {
 		v["base_denom"] = pickDenom(r)
 		v["restricted_service_fee_denom"] = []string{"true", "false"}[r.Intn(2)]
 	case "htlc":
+		if r.Bool(0.6) {
+			// the parameters the chain runs with, one field of one asset moved to a boundary:
+			// the assets that have supplies, open transfers and a used time window are these
+			v["mutate_asset"] = []string{"0", "1", "2"}[r.Intn(3)]
+			v["mutate_field"] = []string{"time_period", "time_limited", "limit", "time_based_limit", "active", "fixed_fee", "min_swap", "max_swap", "min_lock", "max_lock", "deputy"}[r.Intn(11)]
+			switch v["mutate_field"] {
+			case "time_period":
+				v["mutate_value"] = []string{"0", "1", "-1", "1000000000", "3600000000000"}[r.Intn(5)]
+				v["also_time_limited"] = "true"
+			case "time_limited", "active":
+				v["mutate_value"] = []string{"true", "false"}[r.Intn(2)]
+			case "min_lock":
+				v["mutate_value"] = []string{"50", "0", "49", "100"}[r.Intn(4)]
+			case "max_lock":
+				v["mutate_value"] = []string{"25480", "50", "25481", "10"}[r.Intn(4)]
+			case "deputy":
+				v["mutate_value"] = []string{"actor0", "actor1", "governor", "bad"}[r.Intn(4)]
+			default:
+				v["mutate_value"] = pickInt(r)
+			}
+			break
+		}
 		for i, n := 0, r.Intn(4); i < n; i++ {
 			as := map[string]string{
 				"denom": []string{"htltbnb", "htltinc", "htltdec", "htlt", "bnb", "HTLTX"}[r.Intn(6)],
@@ -296,6 +318,52 @@ func (m *ParamLab) caseOf(w *engine.World, a labArgs) *labCase {
 			}}
 	case "htlc":
 		var p htlctypes.Params
+		if f, ok := v["mutate_field"]; ok {
+			cur := w.Node.K.HTLC.GetParams(w.Node.Ctx())
+			p.AssetParams = append(p.AssetParams, cur.AssetParams...)
+			if len(p.AssetParams) > 0 {
+				i := int(u64(v["mutate_asset"])) % len(p.AssetParams)
+				as := p.AssetParams[i]
+				val := v["mutate_value"]
+				switch f {
+				case "time_period":
+					as.SupplyLimit.TimePeriod = time.Duration(i64(val))
+					if v["also_time_limited"] == "true" {
+						as.SupplyLimit.TimeLimited = true
+					}
+				case "time_limited":
+					as.SupplyLimit.TimeLimited = val == "true"
+				case "limit":
+					as.SupplyLimit.Limit = intOf(val)
+				case "time_based_limit":
+					as.SupplyLimit.TimeBasedLimit = intOf(val)
+				case "active":
+					as.Active = val == "true"
+				case "fixed_fee":
+					as.FixedFee = intOf(val)
+				case "min_swap":
+					as.MinSwapAmount = intOf(val)
+				case "max_swap":
+					as.MaxSwapAmount = intOf(val)
+				case "min_lock":
+					as.MinBlockLock = u64(val)
+				case "max_lock":
+					as.MaxBlockLock = u64(val)
+				case "deputy":
+					switch val {
+					case "actor0":
+						as.DeputyAddress = w.A(0).Addr.String()
+					case "actor1":
+						as.DeputyAddress = w.A(1).Addr.String()
+					case "governor":
+						as.DeputyAddress = w.Governor().Addr.String()
+					default:
+						as.DeputyAddress = val
+					}
+				}
+				p.AssetParams[i] = as
+			}
+		}
 		for _, as := range a.Assets {
 			dep := as["deputy"]
 			switch dep {
@@ -497,6 +565,15 @@ func (m *ParamLab) OnFault(w *engine.World, f engine.Fault) {
 	}
 	pb := runBlockHooks(n, pctx)
 	db := runBlockHooks(n, dctx)
+	if pb.class != "panic" {
+		// a second block, a jump in block time later: limit windows roll over
+		jump := []time.Duration{5 * time.Second, time.Hour, 40 * 24 * time.Hour}[int(engine.Mix(w.Seed, "labjump", uint64(n.Height))%3)]
+		pb2 := runBlockHooks(n, pctx.WithBlockHeight(n.Height+2).WithBlockTime(n.Time.Add(5*time.Second+jump)))
+		db2 := runBlockHooks(n, dctx.WithBlockHeight(n.Height+2).WithBlockTime(n.Time.Add(5*time.Second+jump)))
+		if pb2.class == "panic" {
+			pb, db = pb2, db2
+		}
+	}
 	w.Hit("C16.differential_blocks")
 	if pb.class == "panic" && db.class != "panic" {
 		w.Violate("C16", fmt.Sprintf("block-abort/%s/%s", a.Module, pb.site),
